@@ -56,6 +56,85 @@ func hashesHex(hs []common.Uint256) string {
 	return hx.Hex(b)
 }
 
+// ---- an independent reader of the Bitcoin transaction wire form (not the repository's decoder)
+
+func readVar(b []byte, off int) (uint64, int, bool) {
+	if off >= len(b) {
+		return 0, off, false
+	}
+	switch b[off] {
+	case 0xfd:
+		if off+3 > len(b) {
+			return 0, off, false
+		}
+		return uint64(binary.LittleEndian.Uint16(b[off+1:])), off + 3, true
+	case 0xfe:
+		if off+5 > len(b) {
+			return 0, off, false
+		}
+		return uint64(binary.LittleEndian.Uint32(b[off+1:])), off + 5, true
+	case 0xff:
+		if off+9 > len(b) {
+			return 0, off, false
+		}
+		return binary.LittleEndian.Uint64(b[off+1:]), off + 9, true
+	}
+	return uint64(b[off]), off + 1, true
+}
+
+// firstScript returns the signature script of input 0 as it stands in the bytes ("none" without inputs)
+func firstScript(raw []byte) string {
+	off := 4
+	n, off, ok := readVar(raw, off)
+	if !ok {
+		panic("harness: coinbase bytes")
+	}
+	if n == 0 {
+		return "none"
+	}
+	off += 36
+	l, off, ok := readVar(raw, off)
+	if !ok || off+int(l) > len(raw) {
+		panic("harness: coinbase bytes")
+	}
+	return hx.Hex(raw[off : off+int(l)])
+}
+
+func rawHash(raw []byte) string { return hex.EncodeToString(sha256d(raw)) }
+
+func putVar(b *bytes.Buffer, n int) {
+	switch {
+	case n < 0xfd:
+		b.WriteByte(byte(n))
+	case n <= 0xffff:
+		b.WriteByte(0xfd)
+		b.Write([]byte{byte(n), byte(n >> 8)})
+	default:
+		b.WriteByte(0xfe)
+		b.Write(le32(uint32(n)))
+	}
+}
+
+// wireOf assembles the AuxPow wire form from the check tokens u[1..10] by hand: coinbase bytes as given,
+// zero parent hash, the two branches with uint32 indexes, an 80-byte parent header carrying the root
+func wireOf(u []string) []byte {
+	b := new(bytes.Buffer)
+	b.Write(hx.UnHex(u[10]))
+	b.Write(make([]byte, 32))
+	pb := hx.UnHex(u[4])
+	putVar(b, len(pb)/32)
+	b.Write(pb)
+	b.Write(le32(uint32(atoi(u[5]))))
+	ab := hx.UnHex(u[7])
+	putVar(b, len(ab)/32)
+	b.Write(ab)
+	b.Write(le32(uint32(atoi(u[8]))))
+	b.Write(make([]byte, 36))
+	b.Write(hx.UnHex(u[6]))
+	b.Write(make([]byte, 12))
+	return b.Bytes()
+}
+
 func varLen(n int) int {
 	switch {
 	case n < 0xfd:
@@ -78,15 +157,7 @@ func exec(t []string) string {
 	switch t[0] {
 	case "check":
 		tx := decodeTx(t[10])
-		cb := tx.Hash()
-		if hex.EncodeToString(cb[:]) != t[3] {
-			return "oracle-mismatch"
-		}
-		script := "none"
-		if len(tx.TxIn) > 0 {
-			script = hx.Hex(tx.TxIn[0].SignatureScript)
-		}
-		if script != t[9] {
+		if rawHash(hx.UnHex(t[10])) != t[3] || firstScript(hx.UnHex(t[10])) != t[9] {
 			return "oracle-mismatch"
 		}
 		ap := auxpow.AuxPow{
@@ -102,30 +173,12 @@ func exec(t []string) string {
 			return "accept"
 		}
 		return "reject"
-	case "checkw": // like check, but through AuxPow.Serialize / Deserialize (indexes are uint32 on the wire)
-		tx := decodeTx(t[10])
-		ap := auxpow.AuxPow{
-			AuxMerkleBranch:   hashes(t[7]),
-			AuxMerkleIndex:    atoi(t[8]),
-			ParCoinbaseTx:     tx,
-			ParCoinBaseMerkle: hashes(t[4]),
-			ParMerkleIndex:    atoi(t[5]),
-		}
-		ap.ParBlockHeader.MerkleRoot = hash1(t[6])
-		cb := tx.Hash()
-		script := "none"
-		if len(tx.TxIn) > 0 {
-			script = hx.Hex(tx.TxIn[0].SignatureScript)
-		}
-		if hex.EncodeToString(cb[:]) != t[3] || script != t[9] {
+	case "checkw": // like check, but from the wire form (assembled by hand, indexes are uint32 there)
+		if rawHash(hx.UnHex(t[10])) != t[3] || firstScript(hx.UnHex(t[10])) != t[9] {
 			return "oracle-mismatch"
 		}
-		buf := new(bytes.Buffer)
-		if err := ap.Serialize(buf); err != nil {
-			return "unserializable"
-		}
 		var dec auxpow.AuxPow
-		if err := dec.Deserialize(bytes.NewReader(buf.Bytes())); err != nil {
+		if err := dec.Deserialize(bytes.NewReader(wireOf(t))); err != nil {
 			return "undecodable"
 		}
 		h := hash1(t[1])
@@ -144,28 +197,10 @@ func exec(t []string) string {
 		ha := hash1(t[1])
 		ap.Check(&ha, atoi(t[2]))
 		u := t[3:] // u[1..10] = the check tokens of B
-		tx := decodeTx(u[10])
-		bp := auxpow.AuxPow{
-			AuxMerkleBranch:   hashes(u[7]),
-			AuxMerkleIndex:    atoi(u[8]),
-			ParCoinbaseTx:     tx,
-			ParCoinBaseMerkle: hashes(u[4]),
-			ParMerkleIndex:    atoi(u[5]),
-		}
-		bp.ParBlockHeader.MerkleRoot = hash1(u[6])
-		cb := tx.Hash()
-		script := "none"
-		if len(tx.TxIn) > 0 {
-			script = hx.Hex(tx.TxIn[0].SignatureScript)
-		}
-		if hex.EncodeToString(cb[:]) != u[3] || script != u[9] {
+		if rawHash(hx.UnHex(u[10])) != u[3] || firstScript(hx.UnHex(u[10])) != u[9] {
 			return "oracle-mismatch"
 		}
-		buf := new(bytes.Buffer)
-		if err := bp.Serialize(buf); err != nil {
-			return "unserializable"
-		}
-		if err := ap.Deserialize(bytes.NewReader(buf.Bytes())); err != nil {
+		if err := ap.Deserialize(bytes.NewReader(wireOf(u))); err != nil {
 			return "undecodable"
 		}
 		hb := hash1(u[1])
@@ -419,7 +454,12 @@ func coinbaseWith(r *hx.Rand, script []byte) auxpow.BtcTx {
 	for i := r.Intn(3); i > 0; i-- {
 		outs = append(outs, &auxpow.BtcTxOut{Value: int64(r.Intn(1 << 30)), PkScript: r.Bytes(r.Intn(30))})
 	}
-	tx := auxpow.NewBtcTx([]*auxpow.BtcTxIn{in}, outs)
+	ins := []*auxpow.BtcTxIn{in}
+	for i := r.Pick(0, 0, 1, 2); i > 0; i-- { // further inputs: only input 0 carries the commitment
+		ins = append(ins, &auxpow.BtcTxIn{PreviousOutPoint: auxpow.BtcOutPoint{Hash: randHash(r), Index: uint32(r.Intn(4))},
+			SignatureScript: filler(r, r.Intn(40)), Sequence: uint32(r.U64())})
+	}
+	tx := auxpow.NewBtcTx(ins, outs)
 	tx.Version = int32(1 + r.Intn(2))
 	return *tx
 }
@@ -727,6 +767,21 @@ func gen(g *hx.Gen) {
 			q2, _, _ := validProof(r, pickHeight(r)%32, false)
 			g.Emit("checkseq %s %d %s %s", hex.EncodeToString(p.hash[:]), p.chainID, p.wire(), q2.tokens())
 			g.Emit("checkseq %s %d %s %s", hex.EncodeToString(p.hash[:]), p.chainID, p.wire(), p.tokens())
+		}
+		if !shift {
+			// the commitment sits in the LAST input only; the parent root is the hash of the coinbase in which
+			// every input is that last one (what a decoder that aliases its inputs would hash)
+			q := *p
+			garbage := &auxpow.BtcTxIn{PreviousOutPoint: auxpow.BtcOutPoint{Hash: randHash(r)}, SignatureScript: filler(r, 20), Sequence: 7}
+			good := *p.tx.TxIn[0]
+			tx := p.tx
+			tx.TxIn = []*auxpow.BtcTxIn{garbage, &good}
+			q.tx = tx
+			al := p.tx
+			al.TxIn = []*auxpow.BtcTxIn{&good, &good}
+			q.parRoot = auxpow.GetMerkleRoot(freshHash(&al), q.parBranch, q.parIdx)
+			q.emitOp(g, "checkw")
+			q.emit(g)
 		}
 		// (de)serialisation of the whole proof with a random parent header
 		g.Emit("codec %s %d %s %d %d %d %s", p.tokens(), uint32(r.U64()), hx.Hex(r.Bytes(32)), uint32(r.U64()), uint32(r.U64()), uint32(r.U64()), hx.Hex(r.Bytes(32)))
